@@ -47,8 +47,268 @@ pub fn plan_for(property: &str) -> Option<(&'static str, Vec<PlanItem>)> {
                 },
             ],
         ),
+        "C03" => (
+            "C03",
+            vec![
+                PlanItem { family: "general", run: c03_general, quick: 10000, thorough: 300000, determinism_check: true },
+                PlanItem { family: "cut_at_ok", run: c03_cut_at_ok, quick: 6000, thorough: 200000, determinism_check: true },
+                PlanItem { family: "vanish", run: c03_vanish, quick: 6000, thorough: 200000, determinism_check: false },
+                PlanItem { family: "reset_cancel", run: c03_reset_cancel, quick: 6000, thorough: 200000, determinism_check: false },
+            ],
+        ),
         _ => return None,
     })
+}
+
+fn duplex_addrs(cfg: &duplex::DuplexCfg) -> [std::net::SocketAddr; 2] {
+    if cfg.ipv6 {
+        [crate::sim::v6(duplex::A_PORT), crate::sim::v6(duplex::B_PORT)]
+    } else {
+        [crate::sim::v4(duplex::A_PORT), crate::sim::v4(duplex::B_PORT)]
+    }
+}
+
+fn c03_ctx<'a>(
+    case_seed: u64,
+    cfg: &duplex::DuplexCfg,
+    events: &'a [crate::events::Event],
+    view: &'a WireView,
+) -> Option<mon::c03::Ctx<'a>> {
+    let mut c = mon::c03::Ctx::new(events, view, duplex_addrs(cfg))?;
+    let mut scratch = CaseReport::new("scratch", 0, 0);
+    for (from_init, side) in [(true, 0usize), (false, 1usize)] {
+        let r = mon::c01::check_wire_dir(&mut scratch, view, 0, from_init, stream_key(case_seed, 0, side as u8), "x");
+        if r.resegmented_after_delivery_at.is_some() {
+            c.corrupt_cause[side] = " cause=probe-resegmented-after-delivery";
+        }
+    }
+    Some(c)
+}
+
+fn c03_common(rep: &mut CaseReport, ctx: &CaseCtx, g: duplex::Generated, seed: u64) -> (crate::sim::CaseRun<duplex::DuplexOutcome>, duplex::DuplexCfg) {
+    rep.desc = format!("{} chaos={:?} plan[{}]", g.cfg.describe(), g.cfg.chaos, g.plan_desc);
+    let _ = ctx;
+    let cfg = g.cfg.clone();
+    (duplex::run_duplex(seed, &g.cfg, g.plan), cfg)
+}
+
+fn c03_general(ctx: &CaseCtx) -> CaseReport {
+    let mut rep = CaseReport::new(ctx.family, ctx.index, ctx.case_seed);
+    let max_total = if ctx.tier == Tier::Quick { 120_000 } else { 500_000 };
+    let g = duplex::generate(ctx.case_seed, Profile::General, max_total);
+    let (run, cfg) = c03_common(&mut rep, ctx, g, ctx.case_seed);
+    let view = WireView::build(&run.events);
+    if let Some(p) = &run.panicked {
+        rep.inconclusive.push(format!("panic during the run: {p}"));
+    }
+    if let Some(c) = c03_ctx(ctx.case_seed, &cfg, &run.events, &view) {
+        mon::c03::check_ok_means_acked(&mut rep, &c);
+        mon::c03::check_eof(&mut rep, &c);
+        mon::c03::check_after_death(&mut rep, &c);
+    }
+    rep.counters.add("datagrams", view.pkts.len() as u64);
+    rep.nontrivial = rep.counters.get("c03_ok_returns_checked") + rep.counters.get("c03_eofs_checked") + rep.counters.get("c03_deaths_checked") > 0;
+    let end = run.end_time;
+    finish(&mut rep, ctx, &view, run.events, end);
+    rep
+}
+
+fn c03_cut_at_ok(ctx: &CaseCtx) -> CaseReport {
+    use crate::app::{ReaderPlan, ReaderStop, WriterEnd};
+    let mut rep = CaseReport::new(ctx.family, ctx.index, ctx.case_seed);
+    let mut rng = crate::prng::Prng::new(ctx.case_seed ^ 0xC07);
+    let profile = if rng.chance(0.5) { Profile::FairLossy } else { Profile::LossFree };
+    let mut g = duplex::generate(ctx.case_seed, profile, 150_000);
+    let side = rng.below(2) as u8;
+    g.cfg.coordinated_close = false;
+    g.cfg.chaos = duplex::Chaos::CutAtOk { side };
+    // the side under test flushes often and ends with shutdown; both readers keep reading
+    g.cfg.w[side as usize].flush_prob = *rng.pick(&[0.0, 0.05, 0.3]);
+    g.cfg.w[side as usize].end = if rng.chance(0.7) { WriterEnd::Shutdown } else { WriterEnd::FlushThenDrop };
+    // the other side's writer must not end the connection first (a FIN ends both directions)
+    g.cfg.w[1 - side as usize].end = WriterEnd::Hold;
+    for s in 0..2 {
+        let stall = if rng.chance(0.4) { Some((rng.below(100_000) as usize, rng.range(100, 3000) * crate::events::MS)) } else { None };
+        g.cfg.r[s] = ReaderPlan {
+            buf: *rng.pick(&[(1usize, 64usize), (1, 4096), (65536, 65536)]),
+            pause_prob: *rng.pick(&[0.0, 0.2]),
+            pause: (crate::events::MS, 40 * crate::events::MS),
+            stall,
+            start_delay: 0,
+            stop: ReaderStop::Never,
+        };
+    }
+    g.cfg.deadline = std::time::Duration::from_secs(900);
+    let (run, cfg) = c03_common(&mut rep, ctx, g, ctx.case_seed);
+    let view = WireView::build(&run.events);
+    if let Some(p) = &run.panicked {
+        rep.inconclusive.push(format!("panic during the run: {p}"));
+    }
+    if let Some(c) = c03_ctx(ctx.case_seed, &cfg, &run.events, &view) {
+        let covered = mon::c03::check_ok_means_acked(&mut rep, &c);
+        let was_cut = run.events.iter().any(|e| matches!(&e.ev, crate::events::Ev::Note(n) if n.starts_with("network cut")));
+        if was_cut {
+            // bytes covered by the *first* Ok (the one that cut the network)
+            let mut acc = 0u64;
+            let mut first_cov: Option<u64> = None;
+            let mut pending: Option<u64> = None;
+            for e in &run.events {
+                if let crate::events::Ev::Api { conn: 0, side: s, op } = &e.ev {
+                    if *s != side {
+                        continue;
+                    }
+                    use crate::events::ApiOp::*;
+                    match op {
+                        WriteRet(Ok(n)) => acc += *n as u64,
+                        FlushCall | ShutdownCall => pending = Some(acc),
+                        FlushRet(Ok(())) | ShutdownRet(Ok(())) => {
+                            if first_cov.is_none() {
+                                first_cov = pending;
+                            }
+                        }
+                        _ => {}
+                    }
+                }
+            }
+            let _ = covered;
+            if let Some(cov) = first_cov {
+                // what the peer application obtained by the end of the run (it keeps reading; the run
+                // lasts 15 virtual minutes beyond any timer of the library)
+                let mut peer_read = 0u64;
+                let mut peer_end = "still reading at the end of the run".to_string();
+                for e in &run.events {
+                    if let crate::events::Ev::Api { conn: 0, side: s, op } = &e.ev {
+                        if *s == 1 - side {
+                            match op {
+                                crate::events::ApiOp::ReadRet(Ok(n)) if *n > 0 => peer_read += *n as u64,
+                                crate::events::ApiOp::ReadRet(Ok(0)) => peer_end = "EOF".into(),
+                                crate::events::ApiOp::ReadRet(Err(e)) => peer_end = format!("error: {e}"),
+                                _ => {}
+                            }
+                        }
+                    }
+                }
+                mon::c03::check_cut_delivery(&mut rep, &c, side as usize, cov, peer_read, &peer_end);
+            }
+        }
+        mon::c03::check_eof(&mut rep, &c);
+        mon::c03::check_after_death(&mut rep, &c);
+    }
+    rep.counters.add("datagrams", view.pkts.len() as u64);
+    rep.nontrivial = rep.counters.get("c03_cut_cases_checked") > 0;
+    let end = run.end_time;
+    finish(&mut rep, ctx, &view, run.events, end);
+    rep
+}
+
+fn c03_vanish(ctx: &CaseCtx) -> CaseReport {
+    use crate::app::WriterEnd;
+    let mut rep = CaseReport::new(ctx.family, ctx.index, ctx.case_seed);
+    let mut rng = crate::prng::Prng::new(ctx.case_seed ^ 0xA215);
+    let mut g = duplex::generate(ctx.case_seed, if rng.chance(0.5) { Profile::LossFree } else { Profile::FairLossy }, 120_000);
+    g.cfg.coordinated_close = false;
+    for s in 0..2 {
+        g.cfg.w[s].end = WriterEnd::Hold;
+        g.cfg.r[s].stop = crate::app::ReaderStop::Never;
+    }
+    let addrs = duplex_addrs(&g.cfg);
+    let vanishing = rng.below(2) as usize;
+    let k = 3 + rng.log_range(1, 400);
+    g.plan.vanish_at_index = Some((k, addrs[vanishing]));
+    g.plan_desc = g.plan.describe();
+    g.cfg.deadline = std::time::Duration::from_secs(3600);
+    g.cfg.tail = 0;
+    let inactivity = g.cfg.a.remote_inactivity_timeout.map(|d| d.as_micros() as u64).unwrap_or(10 * crate::events::SEC);
+    // the scenario ends when all drivers end; drivers of the surviving side end when its connection dies
+    let (run, cfg) = c03_common(&mut rep, ctx, g, ctx.case_seed);
+    let view = WireView::build(&run.events);
+    if let Some(p) = &run.panicked {
+        rep.inconclusive.push(format!("panic during the run: {p}"));
+    }
+    let t_vanish = run.events.iter().find_map(|e| match &e.ev {
+        crate::events::Ev::Send { fate: crate::events::Fate::Drop("peer-vanished"), .. } => Some(e.t),
+        _ => None,
+    });
+    if let (Some(c), Some(tv)) = (c03_ctx(ctx.case_seed, &cfg, &run.events, &view), t_vanish) {
+        let survivor = 1 - vanishing;
+        let inact = if survivor == 0 { inactivity } else { cfg.b.remote_inactivity_timeout.map(|d| d.as_micros() as u64).unwrap_or(10 * crate::events::SEC) };
+        mon::c03::check_vanish(&mut rep, &c, survivor, tv, inact, run.end_time);
+        mon::c03::check_after_death(&mut rep, &c);
+        mon::c03::check_ok_means_acked(&mut rep, &c);
+    }
+    rep.counters.add("datagrams", view.pkts.len() as u64);
+    rep.nontrivial = rep.counters.get("c03_vanish_cases_checked") > 0;
+    let end = run.end_time;
+    finish(&mut rep, ctx, &view, run.events, end);
+    rep
+}
+
+fn c03_reset_cancel(ctx: &CaseCtx) -> CaseReport {
+    let mut rep = CaseReport::new(ctx.family, ctx.index, ctx.case_seed);
+    let mut rng = crate::prng::Prng::new(ctx.case_seed ^ 0x2E5E7);
+    let mut g = duplex::generate(ctx.case_seed, Profile::General, 120_000);
+    let side = rng.below(2) as u8;
+    let at = rng.log_range(1, 3000) * crate::events::MS;
+    g.cfg.chaos = if rng.chance(0.5) {
+        duplex::Chaos::ResetAt { side, at }
+    } else {
+        duplex::Chaos::CancelAt { side, at }
+    };
+    // while the transport refuses to send, a connection task legitimately does nothing at all
+    // (not even read its inbox); "at once" is judged without simulated send back-pressure
+    g.plan.pending_prob = 0.0;
+    g.plan_desc = g.plan.describe();
+    let (run, cfg) = c03_common(&mut rep, ctx, g, ctx.case_seed);
+    let view = WireView::build(&run.events);
+    if let Some(p) = &run.panicked {
+        rep.inconclusive.push(format!("panic during the run: {p}"));
+    }
+    if let Some(c) = c03_ctx(ctx.case_seed, &cfg, &run.events, &view) {
+        mon::c03::check_after_death(&mut rep, &c);
+        mon::c03::check_eof(&mut rep, &c);
+        mon::c03::check_ok_means_acked(&mut rep, &c);
+        // a processed RESET must surface as an error to the victim's streams
+        if let duplex::Chaos::ResetAt { side, .. } = cfg.chaos {
+            // the moment the spoofed RESET was handed to the victim's socket
+            let reset_id = run.events.iter().find_map(|e| match &e.ev {
+                crate::events::Ev::Send { id, scripted: true, pkt: Some(p), .. } if p.ty == crate::wire::ST_RESET => Some(*id),
+                _ => None,
+            });
+            let injected = reset_id.and_then(|rid| run.events.iter().position(|e| matches!(&e.ev, crate::events::Ev::Recv { id, .. } if *id == rid)));
+            if let Some(ii) = injected {
+                let addr = duplex_addrs(&cfg)[side as usize];
+                let alive_before = !run.events[..ii].iter().any(|e| match &e.ev {
+                    crate::events::Ev::Hook(librqbit_utp::verif::VerifEvent::VsockDropped { id, .. }) => id.local == addr,
+                    crate::events::Ev::Hook(librqbit_utp::verif::VerifEvent::Death { id, .. }) => id.local == addr,
+                    _ => false,
+                });
+                let created = run.events[..ii].iter().any(|e| matches!(&e.ev, crate::events::Ev::Hook(librqbit_utp::verif::VerifEvent::VsockCreated { id }) if id.local == addr));
+                if alive_before && created {
+                    rep.counters.inc("c03_resets_on_live_connection");
+                    let died = run.events[ii..].iter().find_map(|e| match &e.ev {
+                        crate::events::Ev::Hook(librqbit_utp::verif::VerifEvent::Death { id, error }) if id.local == addr => Some((e.t, error.clone())),
+                        _ => None,
+                    });
+                    let t0 = run.events[ii].t;
+                    match died {
+                        Some((t, _)) if t <= t0 + crate::events::MS => {}
+                        other => rep.violate(
+                            "C03",
+                            "reset-not-aborting",
+                            "reset".to_string(),
+                            format!("a RESET was handed to side {side}'s socket at t={t0} us; its connection ended: {:?}", other),
+                            Some(t0),
+                        ),
+                    }
+                }
+            }
+        }
+    }
+    rep.counters.add("datagrams", view.pkts.len() as u64);
+    rep.nontrivial = rep.counters.get("c03_deaths_checked") > 0;
+    let end = run.end_time;
+    finish(&mut rep, ctx, &view, run.events, end);
+    rep
 }
 
 fn c02_fairlossy(ctx: &CaseCtx) -> CaseReport {
